@@ -147,7 +147,8 @@ theorem runActs_next (acts : List Act) (hn : acts.all (fun a => !isRet a) = true
     simp only [List.all_cons, Bool.and_eq_true, Bool.not_eq_true'] at hn
     have hr1 : runActs (a :: rest) (.rune r) s out n =
         runActs rest (.rune r) (applyAct a r s).1 (out ++ (applyAct a r s).2) n := by
-      cases a <;> first | (simp [isRet] at hn) | simp [runActs]
+      have h1 := hn.1
+      cases a <;> first | (simp [isRet] at h1; done) | simp [runActs]
     rw [hr1]
     exact ih (by simpa using hn.2) _ _
 
